@@ -69,9 +69,17 @@ class KnownFindings(object):
                     self.fixed.append(rest)
 
     def match(self, prop, sig):
+        """An open finding is identified by its culprit signature. Several checks share oracle clauses
+        (e.g. the C04 clause runs inside C06, C09, C18), so the same culprit transition reached by another
+        check is the same finding, not a new violation."""
         if sig is None:
             return None
-        return self.open.get((prop, sig))
+        hit = self.open.get((prop, sig))
+        if hit is None:
+            for (p, s), txt in self.open.items():
+                if s == sig:
+                    return txt
+        return hit
 
 
 # --------------------------------------------------------------------------------------
@@ -318,9 +326,9 @@ class Report(object):
         rc = 0
         out_lines = []
         for sig, c in sorted(known_hits.items()):
-            txt = known.open.get((self.prop, sig), 'sig=' + sig)
-            if txt.startswith('property=%s ' % self.prop):
-                txt = txt[len('property=%s ' % self.prop):]
+            txt = known.match(self.prop, sig) or ('sig=' + sig)
+            if txt.startswith('property='):
+                txt = txt.split(' ', 1)[1]
             out_lines.append('KNOWN-FINDING: property=%s %s (matched %d transitions in this run)' % (self.prop, txt, c))
         nviol = 0
         rdir = os.path.join(os.environ.get('VERIF_REPLAY_DIR') or os.path.join(VERIF, 'replays'), self.prop)
